@@ -47,7 +47,7 @@ func (cs *CCase) class() string {
 	return "constraint-" + cs.Mode
 }
 
-const conFull, conStage1 = 100000, 2000
+const conFull, conStage1 = 5000000, 2000 // full cap: a 0.9-backtracking loop that walks a boundary at exactly 0 down through every binade to the denormals needs ~7e5 evaluations (measured); anything beyond 5e6 is a spin
 
 // which budget ended the last runCon
 var conExceeded string
